@@ -91,3 +91,12 @@ CHECKS["C09"] = _c(
     "Trusted: nothing beyond the harness's FramedBody (it yields exactly the bytes it was given - checked by the reference run being reproducible). The reference framing is one frame through the same boxed-body path.",
     "DESIGN.md 3/C09",
 )
+
+CHECKS["C01"] = _c(
+    "exploration",
+    "runtime monitoring: recording backend (generated from the current S3 trait) behind S3Service::call; requests encoded by aws-sdk-s3 through s3s_aws::Proxy for every operation and configuration, plus raw requests that denote no model operation (model-derived oracle)",
+    "harness (looped client/adapter/backend engine + raw request driver)",
+    "Every method of the S3 trait is called through the official SDK with inputs whose optional members are absent / all present / random subsets, under path-style and virtual-hosted addressing, with no / single-domain / multi-domain host parser, with and without authentication; the recording backend must log exactly that method, once. Raw requests over 10 HTTP methods x root/bucket/object paths x subsets of the model's query flags x discriminating headers that denote no operation of the smithy model must get an S3 error and no backend call. Held on the executions observed.",
+    "Trusted: aws-sdk-s3 as the encoder of well-formed requests; the harness's reading of the smithy http traits, used only conservatively (a request 'denotes nothing' only if every candidate operation lacks a required literal query key). Requests the SDK refuses client-side are counted, not judged.",
+    "DESIGN.md 3/C01",
+)
